@@ -973,8 +973,11 @@ def a_lines(cx, rule):
                 t = g.final_states[0].get(ls[0])
                 if isinstance(t, list) and len(t) == 5:
                     pre_grades = [g.grade('Fp2', x) for x in t]
+        deleg = name.endswith('no_pre') and any(t_['fn']['k'] == 'def' and t_['fn']['name'] == 'gm_sm9::points::sm9_u256_eval_g_line' and (b_, -1) in set(G.ret_def_sites(fn)) for b_, t_ in fn.calls())
         if bad:
             cx.violate(rule, fn.short, '%s is not weighted-homogeneous: %s' % (fn.short, bad[0][1]), G.where(fn, bad[0][0]) if bad[0][0] else fn.loc(), {'all': [x[1] for x in bad][:8]})
+        elif deleg:
+            cx.hold(rule, fn.short, '%s computes `pre` and delegates to sm9_u256_eval_g_line (graded on its own; the grades of `pre` are taken from here)' % fn.short, fn.loc())
         elif checked < 2:
             cx.lost(rule, fn.short, 'the point and the line coefficients of %s could not both be graded' % fn.short, fn.loc())
         else:
